@@ -130,6 +130,32 @@ class OrderedSet:
 _PATCHED = False
 
 
+class _FormattingHandler(logging.Handler):
+    """What a StreamHandler does without the stream: the message is formatted (every %r argument is rendered), a
+    formatting error is swallowed the way logging.Handler.handleError swallows it, and counted."""
+
+    errors = 0
+    records = 0
+
+    def emit(self, record):
+        _FormattingHandler.records += 1
+        try:
+            record.getMessage()
+        except Exception:  # noqa
+            _FormattingHandler.errors += 1
+
+
+def set_debug_logging(on):
+    """Applications may run the library with its logger at DEBUG: every `if debug:` branch then runs too."""
+    lg = logging.getLogger("zeroconf")
+    if on:
+        lg.handlers[:] = [_FormattingHandler()]
+        lg.setLevel(logging.DEBUG)
+    else:
+        lg.handlers[:] = [logging.NullHandler()]
+        lg.setLevel(logging.CRITICAL + 10)
+
+
 def install_seams():
     global _PATCHED
     if _PATCHED:
@@ -358,10 +384,14 @@ class Decisions:
 
 class World:
     def __init__(self, seed, faults=None, overrides=None, start=1000.0, step_cap=2_000_000, jitter_mode=None,
-                 listener_reverse=False, keep_log=True, timer_slop=0.0):
+                 listener_reverse=False, keep_log=True, timer_slop=0.0, debug_log=False):
         global _WORLD
         install_seams()
         zc_incoming._seen_logs.clear()
+        zeroconf._logger.QuietLogger._seen_logs.clear()
+        self.debug_log = bool(debug_log)
+        if self.debug_log:
+            set_debug_logging(True)
         self.seed = seed
         self.dec = Decisions(seed, overrides)
         self.loop = SimLoop(start, step_cap)
@@ -550,6 +580,8 @@ class World:
         except Exception:  # noqa
             pass
         zc_incoming._seen_logs.clear()
+        if self.debug_log:
+            set_debug_logging(False)
         _WORLD = None
 
 
